@@ -26,6 +26,9 @@
 //	                 stanzas, unknown/grease stanzas, random or malformed
 //	                 stanzas of the identities' own types), MAC and payload
 //	                 keyed with the empty key and other values anyone can choose
+//	encodings        reference-built good files whose X25519 / ssh-ed25519
+//	                 stanzas carry a valid but unusual encoding of the share
+//	                 (top bit set, unreduced p+u); identities recorded
 //	history          in one process, on the same bytes: legitimate decryptions
 //	                 (real identities) interleaved with disjoint lists — right,
 //	                 wrong, right (second object), wrong, alternating, with a
@@ -83,12 +86,14 @@ func main() {
 	jobs = append(jobs, m.stageTypeMatrix()...)
 	jobs = append(jobs, m.stageSSHSameType()...)
 	jobs = append(jobs, m.stageDegenerate()...)
+	jobs = append(jobs, m.stageEncodings()...)
 	r.Set("jobs", len(jobs))
 	mon.Par(len(jobs), func(i int) { jobs[i]() })
 
 	// a run that did not reach the cases the property names is not "held"
 	for _, c := range []string{"nearmiss_pub_k255_same_point_confirmed", "nearmiss_secret_variants_kept", "nearmiss_secret_variants_dropped_same_public_key",
-		"passphrase_variants", "typed_error_checked", "no_reader_checked", "files_validated_by_reference", "history_successful_decrypts", "history_subjects"} {
+		"passphrase_variants", "typed_error_checked", "no_reader_checked", "files_validated_by_reference", "history_successful_decrypts", "history_subjects",
+		"encodings_files_opened_by_reference_for_recipient:valid-unusual", "encodings_same_point_confirmed", "recorder_logs_judged"} {
 		if r.Counter(c) == 0 {
 			r.Inconclusive("counter %s is zero: that part of the workload did not run", c)
 		}
